@@ -4,10 +4,11 @@ receivers and arguments are (requests the library rejects leave the heap as it i
 -/
 import Ajson.Proofs.WFMove
 import Ajson.Proofs.Frame
+import Ajson.Proofs.ObjMove
 namespace Ajson.Proofs
 open Ajson Ajson.Heap
 
-/-- one edit request: the operations proved so far, addressed by node id -/
+/-- one edit request: the operations proved so far, addressed by node id (AppendObject: new key or existing key, any value) -/
 inductive Edit
   | setNull (n : Nat)
   | setNumeric (n : Nat) (bits : UInt64)
@@ -17,11 +18,13 @@ inductive Edit
   | deleteIndex (n : Nat) (i : Int)
   | delete (n : Nat)
   | appendArray (n v : Nat)
+  | appendObject (n : Nat) (key : Bytes) (v : Nat)
 
 /-- the nodes a request names -/
 def Edit.names : Edit → List Nat
   | .setNull n | .setNumeric n _ | .setString n _ | .setBool n _ | .deleteKey n _ | .deleteIndex n _ | .delete n => [n]
   | .appendArray n v => [n, v]
+  | .appendObject n _ v => [n, v]
 
 /-- the heap after a request (the outcome — ok or error — is dropped: a rejected request leaves the heap as it is) -/
 def Edit.run (h : Heap) : Edit → Heap
@@ -33,6 +36,7 @@ def Edit.run (h : Heap) : Edit → Heap
   | .deleteIndex n i => (h.popIndex (some n) i).1
   | .delete n => (h.delete n).1
   | .appendArray n v => (h.appendArray n [v]).1
+  | .appendObject n k v => (h.appendObject n k v).1
 
 theorem size_remove (h : Heap) (n v : Id) : (h.remove n v).1.size = h.size := by
   unfold Heap.remove
@@ -173,6 +177,8 @@ theorem Edit.sound {h : Heap} (hs : Struct h) (ha : Acyc h) (e : Edit) (hnames :
     exact ⟨struct_delete hs n hn, acyc_delete ha n, size_delete h n⟩
   | appendArray n v =>
     exact appendArray_sound hs ha n v (hnames n (by simp [Edit.names])) (hnames v (by simp [Edit.names]))
+  | appendObject n k v =>
+    exact appendObject_sound hs ha n v (hnames n (by simp [Edit.names])) (hnames v (by simp [Edit.names])) k
 
 /-- **any history**: every finite sequence of these requests, on any nodes of a sound acyclic heap, leaves a sound acyclic heap -/
 theorem history_sound : ∀ (es : List Edit) (h : Heap), Struct h → Acyc h → (∀ e ∈ es, ∀ x ∈ e.names, x < h.size) →
